@@ -22,7 +22,8 @@ from harness import common, tg
 
 REQUIRED = ["mutation_resets_memo", "nonquery_keeps_no_solver", "query_preserves_graph", "replica_same_graph",
             "fresh_is_cold", "query_fresh_partial", "query_fresh_after_mutation", "query_fresh_solverfree",
-            "query_fresh_acyclic", "query_fresh_acyclic_history", "repeated_query_stable", "cyclic_witness", "query_fresh_not_full"]
+            "query_fresh_acyclic", "query_fresh_acyclic_history", "repeated_query_stable", "cyclic_witness", "query_fresh_not_full",
+            "invalidate_sites_as_modelled", "model_invalidation_as_specified"]
 
 WORKERS = 14
 SOLVER_Q = ("has", "visible", "filter")
@@ -455,12 +456,20 @@ def search(res, rng, disagreements, pfail):
   return found
 
 
+def _prepare():
+  from translate import invalidate_sites
+  invalidate_sites.main()
+
+
 def main():
   try:
     return common.run_check(
-        "C08", REQUIRED, correspond, witnesses, search,
-        trusted=["hand-written model of the Program state machine (Program.lean) incl. which C++ functions call "
-                 "InvalidateSolver; tied op-by-op to the real extension (answers, solver count, memo size)",
+        "C08", REQUIRED, correspond, witnesses, search, prepare=_prepare,
+        trusted=["hand-written model of the Program state machine (Program.lean), tied op-by-op to the real extension "
+                 "(answers, solver count, memo size); WHICH C++ functions call InvalidateSolver (and under which guard), "
+                 "which write solver-visible state and who calls those helpers is regenerated from typegraph.cc / "
+                 "typegraph.h / cfg.cc on every run (translate/invalidate_sites.py, a brace matcher, not a C++ parser) "
+                 "and proved equal to the table the model was written against (invalidate_sites_as_modelled)",
                  "heap-address order of Binding objects (orders std::set<SourceSet>) is measured on the real program "
                  "and passed to the model as address ranks",
                  "no 64-bit collisions of State::Hash; PathCacheTrie is a pure memo"],
